@@ -204,6 +204,8 @@ func (g *Gen) noteCall(c *ssa.CallCommon, in ssa.Instruction, res *Val, prefix s
 		g.ghostSorts["$ok:"+name] = "Bool"
 		if er := errorResult(res); er != nil {
 			s.ghost["$ok:"+name] = eq(er.T, "0")
+			g.ghostSorts["$allok:"+name] = "Bool"
+			s.ghost["$allok:"+name] = and(g.allokTerm(s, name), eq(er.T, "0"))
 		} else {
 			s.ghost["$ok:"+name] = "true"
 		}
@@ -753,4 +755,12 @@ func sortOfTarget(g *Gen, t frameTarget) string {
 		return strings.TrimSuffix(strings.TrimPrefix(c.Sort, "(Array Int "), ")")
 	}
 	return c.Sort
+}
+
+// allokTerm: "every call matching name so far returned a nil error" (true initially).
+func (g *Gen) allokTerm(s *State, name string) string {
+	if t, ok := s.ghost["$allok:"+name]; ok {
+		return t
+	}
+	return "true"
 }
